@@ -242,6 +242,10 @@ MODELS = {
     # pid: list of (spec, cfg_quick, cfg_thorough, workers)
     "C01": [("LdpcIt_MC", "LdpcIt_quick", "LdpcIt_thorough")],
     "C04": [("LdpcIt_MC", "LdpcIt_quick", "LdpcIt_thorough")],
+    "C03": [("LdpcMl_MC", "LdpcMl_quick", "LdpcMl_thorough")],
+    "C02": [("RsSession", "RsSession", "RsSession_thorough")],
+    "C10": [("RsSession", "RsSession", "RsSession_thorough"), ("LdpcMl_MC", "LdpcMl_quick", "LdpcMl_thorough")],
+    "C11": [("RsSession", "RsSession", "RsSession_thorough")],
 }
 
 # x = (chunk, exec, dec, finok, finfail, cbn, calls, gettab, build, skipped)
